@@ -126,7 +126,8 @@ def m_panic(eng, call, args):
 # ---------------------------------------------------------------------------------------------------------
 # slices / vec / arrays
 # ---------------------------------------------------------------------------------------------------------
-@model("std::slice::<impl [T]>::len", "std::vec::Vec::<T, A>::len", "std::string::String::len",
+@model("bitvec::vec::api::<impl bitvec::vec::BitVec<T, O>>::len", "bitvec::slice::api::<impl bitvec::slice::BitSlice<T, O>>::len",
+       "std::slice::<impl [T]>::len", "std::vec::Vec::<T, A>::len", "std::string::String::len",
        "std::str::<impl str>::len", "std::collections::BTreeSet::<T, A>::len")
 def m_len(eng, call, args):
     return eng.length(call["state"], val(eng, call, args[0]))
@@ -151,7 +152,8 @@ def m_view(eng, call, args):
     return args[0]
 
 
-@model("std::slice::<impl [T]>::to_vec", "std::borrow::ToOwned::to_owned", "std::clone::Clone::clone",
+@model("bitvec::slice::BitSlice::<T, O>::to_bitvec",
+       "std::slice::<impl [T]>::to_vec", "std::borrow::ToOwned::to_owned", "std::clone::Clone::clone",
        "std::string::ToString::to_string")
 def m_copy(eng, call, args):
     v = val(eng, call, args[0]) if args[0].op in ("ref", "refv", "refo", "phi") else args[0]
@@ -1196,3 +1198,72 @@ def m_occupied_get_mut(eng, call, args):
             return mk("ref", mp.args[0], mp.args[1] + (("mapval", k),))
     eng.note("OccupiedEntry::get_mut on unknown entry")
     return mk("ext", "get_mut", e)
+
+
+# ---------------------------------------------------------------------------------------------------------
+# bitvec 1.0 (source read for the partial ones: split_at / set / index panic when out of range)
+# ---------------------------------------------------------------------------------------------------------
+@model("bitvec::vec::BitVec::<T, O>::from_slice")
+def m_bv_from_slice(eng, call, args):
+    v = val(eng, call, args[0])
+    return mk("bits_of", v)
+
+
+@model("bitvec::vec::api::<impl bitvec::vec::BitVec<T, O>>::with_capacity", "bitvec::vec::api::<impl bitvec::vec::BitVec<T, O>>::new")
+def m_bv_new(eng, call, args):
+    if args:
+        call["alloc_size"] = args[0]
+    return mk("vec_new")
+
+
+@model("bitvec::slice::api::<impl bitvec::slice::BitSlice<T, O>>::split_at")
+def m_bv_split_at(eng, call, args):
+    v = val(eng, call, args[0])
+    n = eng.length(call["state"], v)
+    call["pre"] = ("le", args[1], n)
+    return mk("agg", "tuple", mk("refv", mk_slice(eng, call, v, Int(0), args[1])), mk("refv", mk_slice(eng, call, v, args[1], n)))
+
+
+@model("bitvec::slice::api::<impl bitvec::slice::BitSlice<T, O>>::split_last")
+def m_bv_split_last(eng, call, args):
+    v = val(eng, call, args[0])
+    n = eng.length(call["state"], v)
+    c = binop("Eq", n, Int(0), "usize")
+    last = mk("refv", mk("index", v, binop("Sub", n, Int(1), "usize")))
+    rest = mk("refv", mk_slice(eng, call, v, Int(0), binop("Sub", n, Int(1), "usize")))
+    return two_way("std::option::Option", [
+        (0, "None", [], [(c, "eq", 1)]),
+        (1, "Some", [mk("agg", "tuple", last, rest)], [(c, "eq", 0)]),
+    ])
+
+
+@model("bitvec::slice::api::<impl bitvec::slice::BitSlice<T, O>>::starts_with")
+def m_bv_starts_with(eng, call, args):
+    a = val(eng, call, args[0])
+    b = val(eng, call, args[1]) if args[1].op in ("ref", "refv", "refo") else args[1]
+    return mk("starts_with", a, b)
+
+
+@model("bitvec::slice::BitSlice::<T, O>::set")
+def m_bv_set(eng, call, args):
+    old = val(eng, call, args[0])
+    call["pre"] = ("lt", args[1], eng.length(call["state"], old))
+    eng.assign_through(call, args[0], mk("bit_set", old, args[1], args[2]))
+    return mk("unit")
+
+
+@model("std::boxed::Box::<T>::new_uninit", "std::boxed::Box::<T>::new")
+def m_box_new(eng, call, args):
+    loc = ("box", call["site"])
+    call["state"][loc] = args[0] if args else mk("undef", loc)
+    return mk("boxptr", loc)
+
+
+@model("std::boxed::box_assume_init_into_vec_unsafe", "std::slice::<impl [T]>::into_vec", "std::boxed::Box::<T, A>::assume_init")
+def m_box_into_vec(eng, call, args):
+    b = args[0]
+    if b.op == "boxptr":
+        v = call["state"].get(b.args[0])
+        if v is not None:
+            return v
+    return mk("ext", "box_into_vec", b)
